@@ -109,13 +109,13 @@ fn poll_expired_timers_loop(timers_cell: &mut TimerWheel, mut poll_events: Vec<P
     let ghost mut popped: Seq<TimeoutData> = Seq::empty();
 //@ before <<while let Some((_, token)) = timers.next_expired(now)>>
         let ghost mut prev = *timers;
-//@ before <<poll_events.push(PollEvent {>>
+//@ atloopstart <<while let Some>>
             proof {
                 // the entry this iteration popped is the top of the wheel as it was before the call
                 assert(forall|y: TimeoutData| timers@.count(y) > 0 ==> prev@.count(y) > 0);
                 popped = popped.push(prev.top());
             }
-//@ after <<poll_events.push(PollEvent {>>
+//@ atloopend <<while let Some>>
             proof { prev = *timers; }
 //@ loop 1
         invariant_except_break
